@@ -686,7 +686,10 @@ func parseDuration(input string) (int64, int32, bool) {
 		intp = intp[:n]
 
 	case b[0] == '.':
-		// Continue below.
+		// Without an integer part there must be at least one fractional digit.
+		if len(b) < 2 || b[1] < '0' || '9' < b[1] {
+			return 0, 0, false
+		}
 
 	default:
 		return 0, 0, false
